@@ -44,8 +44,15 @@ fn do_set(constant: bool, accept: bool, v: i32, last: &mut Option<i32>, log: &mu
     }
 }
 
+thread_local! {
+    /// what the ConstantGetter's own time getter answers in `settable_history`: 0 = Ok(40),
+    /// 1 = Err(Other(9)), 2 = Err(FromNone). The settable bookkeeping (set, follow, update results,
+    /// last request) does not depend on it; get() is only judged under 0.
+    static CG_CLOCK: std::cell::Cell<u8> = std::cell::Cell::new(0);
+}
 fn settable_history(seq: &[usize], constant: bool, e: &mut Eng) -> u64 {
     let n = seq.len();
+    let cg_clock = CG_CLOCK.with(|c| c.get());
     // model
     let mut last: Option<i32> = None;
     let mut accept = true;
@@ -59,7 +66,11 @@ fn settable_history(seq: &[usize], constant: bool, e: &mut Eng) -> u64 {
     let r = guard(|| {
         let g1r = rc(Scr::<i32>::new(g1_out(0, 0)));
         let g2r = rc(Scr::<i32>::new(Ok(Some(Datum::new(Time(6), 9)))));
-        let clock = rc(ScrTime::new(Ok(Time(40))));
+        let clock = rc(ScrTime::new(match cg_clock {
+            0 => Ok(Time(40)),
+            1 => Err(Error::Other(9)),
+            _ => Err(Error::FromNone),
+        }));
         let mut rec = RecSet::<i32>::new();
         let mut cg = ConstantGetter::new(rf(&clock), 100i32);
         let mut trace: Vec<(u32, Option<i32>, Vec<i32>, Obs)> = Vec::new();
@@ -138,7 +149,7 @@ fn settable_history(seq: &[usize], constant: bool, e: &mut Eng) -> u64 {
         }
         let (res, lr, rlog, got) = &trace[k];
         let exp_get = Obs { tag: 1, time: 40, bits: [(value as f32).to_bits(), 0, 0, 0] };
-        let ok = *res == exp_res && *lr == last && (constant || *rlog == log) && (!constant || *got == exp_get);
+        let ok = *res == exp_res && *lr == last && (constant || *rlog == log) && (!constant || cg_clock != 0 || *got == exp_get);
         if !ok {
             let cls = if *res != exp_res {
                 "result"
@@ -151,8 +162,8 @@ fn settable_history(seq: &[usize], constant: bool, e: &mut Eng) -> u64 {
             };
             e.violation(&format!("settable:{}:{}", name, cls), k + 1, || {
                 format!(
-                    "ops [{}]: after op {} result code {} last_request {:?} inner log {:?} get {} but the bookkeeping model says result {} last_request {:?} log {:?} value {}",
-                    ops_show(&seq[..=k]), k, res, lr, rlog, got.show(), exp_res, last, log, value
+                    "ops [{}]{}: after op {} result code {} last_request {:?} inner log {:?} get {} but the bookkeeping model says result {} last_request {:?} log {:?} value {}",
+                    ops_show(&seq[..=k]), ["", " (the constant getter's own time getter returns Err(Other(9)))", " (the constant getter's own time getter returns Err(FromNone))"][cg_clock as usize], k, res, lr, rlog, got.show(), exp_res, last, log, value
                 )
             });
             break;
@@ -802,6 +813,16 @@ pub fn run(ctx: &Ctx) -> Vec<Eng> {
             a
         });
     }
+    // the ConstantGetter again with its own time getter failing (two error values): one step shorter
+    for mode in 1..=2u8 {
+        par_seqs(&mut e1, OPS.len(), depth - 1, budget, |seq, e| {
+            CG_CLOCK.with(|c| c.set(mode));
+            let a = settable_history(seq, true, e);
+            CG_CLOCK.with(|c| c.set(0));
+            a
+        });
+    }
+    e1.bounds.push_str(&format!("; plus 10^{} sequences x 2 on ConstantGetter whose own time getter returns Err(Other(9)) / Err(FromNone) (bookkeeping and update results judged, not get())", depth - 1));
     {
         // long runs: follow(g1) then 40 operations within 2 deviations of `update`
         let cases = deviation_cases(40, OPS.len() - 1, 2);
